@@ -59,3 +59,14 @@ impl From<IndexMap<String, JsonValue>> for JsonValue {
         ensures r == JsonValue::Object(value),
 //@@ endfn
 }
+impl vstd::std_specs::convert::FromSpecImpl<String> for JsonValue {
+    open spec fn obeys_from_spec() -> bool { true }
+    open spec fn from_spec(v: String) -> Self { JsonValue::String(v) }
+}
+impl From<String> for JsonValue {
+//@@ fn jv.from_string = src/json_value.rs :: impl From<String> for JsonValue :: fn from
+//@@ ret r
+//@@ header
+        ensures r == JsonValue::String(str),
+//@@ endfn
+}
